@@ -1542,7 +1542,8 @@ func (w *world) destroy() {
 		ulog.SetDefaultLogger(&restored)
 		w.prevLogger = nil
 	}
-	deadline := time.Now().Add(ceiling)
+	t0 := time.Now()
+	deadline := t0.Add(ceiling)
 	for time.Now().Before(deadline) {
 		busy := false
 		for _, cs := range w.all {
@@ -1554,7 +1555,8 @@ func (w *world) destroy() {
 		}
 		if !busy {
 			if w.tcp {
-				if len(loopsOf()) == 0 {
+				// loops that are still there although nothing has been running for a while are stuck: they will not go
+				if len(loopsOf()) == 0 || (time.Since(t0) > 300*time.Millisecond && quietNow()) {
 					break
 				}
 			} else if w.spin || settleWithin(2*time.Second) == nil {
